@@ -78,6 +78,11 @@ class CoopLock:
     def locked(self):
         return self._owner is not None
 
+    def _at_fork_reinit(self):
+        # what threading's locks offer to os.register_at_fork users (logging re-initialises its locks in a forked child)
+        self._owner = None
+        self._count = 0
+
     def __enter__(self):
         self.acquire()
         return self
